@@ -446,6 +446,8 @@ type c30Level struct {
 	relay       bool
 	corrupt     int // 0 none, -1 header only (xor 0x80), 1 header + payload edges, 2 + every payload offset (stride inside payloads > 2048)
 	corruptStep int
+	xors        []byte // substitution masks (default 0x01, 0x80, 0xff)
+	edge        int    // payload edge window for corrupt levels without every offset (default 12)
 	part, parts int // this job runs the cases whose running index = part (mod parts)
 }
 
@@ -590,6 +592,13 @@ func c30Explore(r *ev.Run, st *c30Stats, specs []c30Spec, lv c30Level) (complete
 		if lv.corrupt < 0 {
 			xors = []byte{0x80}
 		}
+		if lv.xors != nil {
+			xors = lv.xors
+		}
+		edge := c30Window
+		if lv.edge > 0 {
+			edge = lv.edge
+		}
 		b0 := 0
 		for _, s := range specs {
 			hdrEnd := b0 + packetHeaderSize
@@ -606,7 +615,7 @@ func c30Explore(r *ev.Run, st *c30Stats, specs []c30Spec, lv c30Level) (complete
 					offs[o] = struct{}{}
 				}
 			} else {
-				for d := 0; d < c30Window && d < s.PLen; d++ {
+				for d := 0; d < edge && d < s.PLen; d++ {
 					offs[hdrEnd+d] = struct{}{}
 					offs[payEnd-1-d] = struct{}{}
 				}
@@ -694,7 +703,7 @@ func TestVerifC30(t *testing.T) {
 	// The reader allocates a fresh buffer per maximum-size payload; an (untouched) ballast
 	// raises the GC heap goal so that those buffers are recycled inside the heap instead of
 	// being returned to and re-faulted from the OS on every run.
-	ballast := make([]byte, 128<<20)
+	ballast := make([]byte, 32<<20)
 	defer runtime.KeepAlive(ballast)
 	defer debug.SetGCPercent(debug.SetGCPercent(100))
 	r.Rule("part A: every packet of protocol{0,0x100,0xffff} x sub{0,0x501} x src{2} x dest{0,1,2,0xff} x ttl{0,1,255} x payloadLen{0,1,2,1023,1024,max} x ext(hint,len){(0,0),(1,1),(63,1023)} as a one-packet stream; " +
@@ -776,7 +785,7 @@ func TestVerifC30(t *testing.T) {
 	}
 	nB, nBskipped := 0, 0
 	opseq.Sequences(len(shapes), 1, 3, func(seq []int) bool {
-		big, small, tiny, np := 0, true, true, 4
+		big, small, tiny, np, midExt := 0, true, true, 4, false
 		if len(seq) == 3 || quick {
 			np = 2
 		}
@@ -785,6 +794,7 @@ func TestVerifC30(t *testing.T) {
 			sh := shapes[i]
 			if sh.PLen > 8192 {
 				big++
+				midExt = midExt || sh.ELen == 1
 			} else if !partner(sh, np) {
 				partnersOnly = false
 			}
@@ -799,7 +809,7 @@ func TestVerifC30(t *testing.T) {
 		if quick {
 			// quick: triples only over the 4 smallest shapes (these get ALL <=2-cut chunkings);
 			// at most one maximum-size payload per stream
-			skip = skip || (len(seq) == 3 && !tiny) || (len(seq) == 2 && big > 1)
+			skip = skip || (len(seq) == 3 && !tiny) || (len(seq) == 2 && big > 1) || (len(seq) == 2 && big > 0 && midExt)
 		}
 		if skip {
 			nBskipped++
@@ -818,8 +828,9 @@ func TestVerifC30(t *testing.T) {
 				parts = r.Pick(8, 32)
 				lv.corruptStep = r.Pick(16411, 997)
 				if quick {
-					lv.win2 = 2
-					lv.uniform = []int{1, 2, 3, 7, 64}
+					lv.uniform, lv.win1, lv.win2 = []int{1, 64}, 4, 0
+					lv.xors, lv.edge, lv.corruptStep = []byte{0x80}, 2, 131101
+					parts = 4
 				}
 			}
 		case 2:
@@ -831,8 +842,8 @@ func TestVerifC30(t *testing.T) {
 				lv.uniform, lv.win1, lv.win2, lv.corrupt = u8, 4, 2, -1
 				parts = 4
 				if quick {
-					lv.uniform, lv.win2, lv.corrupt = []int{1, 64}, 0, 0
-					parts = 1
+					lv.uniform, lv.win1, lv.win2, lv.corrupt = []int{1, 64}, 2, 0, 0
+					parts = 2
 				}
 			}
 		case 3:
@@ -840,7 +851,8 @@ func TestVerifC30(t *testing.T) {
 				lv.uniform = u8
 			}
 			if big > 0 {
-				lv.uniform, lv.win1 = []int{1, 7, 64}, 4
+				lv.uniform, lv.win1 = []int{1, 7, 64}, 2
+				parts = 2
 			}
 		}
 		add(specs, lv, parts)
